@@ -36,6 +36,10 @@ RULE = ('Per payload size (0, 1, block-1, block, block+1, 2*block, 3*block+7 '
         'and hard os._exit crashes in a forked child. '
         'Non-trivial = at least one fault that fires strictly inside a transfer '
         'or decompression (after the first byte was written, before the last).')
+RULE += (
+    ' '
+    'Also: premature EOF on a response that does not enforce the announced length; the downlo'
+    'aded archive must survive an interrupted decompression.')
 ASSUMPTIONS = [
     'disk-full model (download and decompression): the operating-system level write that hits '
     'the limit stores a prefix and returns the short count, later writes raise '
